@@ -4,6 +4,7 @@ import (
 	"fmt"
 	"go/token"
 	"go/types"
+	"sort"
 	"strings"
 
 	"golang.org/x/tools/go/ssa"
@@ -276,6 +277,77 @@ func runC02(p *core.Prog, r *core.Report) {
 			var bad []string
 			for _, f := range ma2.analyse(handle, map[ssa.Value]string{handle.Params[0]: tPtr}) {
 				bad = append(bad, f.msg+" at "+f.pos)
+			}
+			// …nor memory shared by the whole package: a package-level variable that code reachable from Handle stores to,
+			// or hands (itself or its address) to a method or function — a shared scratch buffer, encoder, cache. Pools and
+			// atomics are made for that; tables that are only indexed are not touched here.
+			{
+				var glob []string
+				for fn := range reachableFrom(p, handle) {
+					if rootFn(fn).Pkg != handle.Pkg {
+						continue
+					}
+					// code that runs with the handler's mutex held is serialised
+					locks := sx.Locksets(fn)
+					sx.Instrs(fn, func(in ssa.Instruction) {
+						if len(locks[in]) > 0 {
+							return
+						}
+						isShared := func(v ssa.Value) *ssa.Global {
+							v = sx.Unspill(v)
+							if ld, ok := v.(*ssa.UnOp); ok && ld.Op == token.MUL {
+								v = ld.X
+							}
+							if fa, ok := v.(*ssa.FieldAddr); ok {
+								v = fa.X
+							}
+							g, ok := v.(*ssa.Global)
+							if !ok || g.Pkg != handle.Pkg {
+								return nil
+							}
+							if isSyncType(ptrTo(g.Type())) {
+								return nil
+							}
+							if n, ok := ptrTo(g.Type()).(*types.Named); ok && n.Obj().Pkg() != nil && n.Obj().Pkg().Path() == "sync" {
+								return nil
+							}
+							// documented as safe for concurrent use and without per-call state
+							gt := ptrTo(g.Type())
+							if pt := ptrTo(gt); pt != nil {
+								gt = pt
+							}
+							switch gt.String() {
+							case "strings.Replacer", "regexp.Regexp", "time.Location":
+								return nil
+							}
+							return g
+						}
+						switch x := in.(type) {
+						case *ssa.Store:
+							if fn.Name() == "init" {
+								return
+							}
+							if g := isShared(x.Addr); g != nil {
+								glob = append(glob, "store to package variable "+g.Name()+" in "+fnName(fn)+" at "+p.Pos(in.Pos()))
+							}
+						case ssa.CallInstruction:
+							cc := x.Common()
+							if _, isB := cc.Value.(*ssa.Builtin); isB {
+								return
+							}
+							for _, a := range sx.Args(x) {
+								if pt := ptrTo(a.Type()); pt == nil && !types.IsInterface(a.Type()) {
+									continue // passed by value: a copy
+								}
+								if g := isShared(a); g != nil {
+									glob = append(glob, "package variable "+g.Name()+" is handed to "+short(sx.CalleeName(x))+" in "+fnName(fn)+" at "+p.Pos(in.Pos()))
+								}
+							}
+						}
+					})
+				}
+				sort.Strings(glob)
+				r.Check(len(glob) == 0, "C02-R5", h.Name+".Handle uses no package-level scratch state outside the mutex", p.FuncPos(handle), "no store to, and no call on, a package-level variable other than pools and atomics", "the line is formatted before the output mutex is taken, so concurrent Handle calls run this at the same time: "+strings.Join(uniq(glob), "; ")+" — one record's bytes end up in another record's line")
 			}
 			r.Check(len(bad) == 0, "C02-R5", h.Name+".Handle writes no memory owned by the handler", p.FuncPos(handle), "no store, in-place append or mutating call reaches memory reachable from the receiver (scratch space comes from a pool or is local)", "concurrent Handle calls of this handler (and of the handlers derived from it) run this unlocked and would write the same memory: "+strings.Join(uniq(bad), "; "))
 		}
